@@ -54,6 +54,7 @@ func runC12(seed uint64, n int, tier string, outDir string) []*Stats {
 	boxModelCases(r, n+n/2, cf, st)
 	radiusModelCases(r, n, cf, st)
 	nestCases(r, n, cf, st)
+	nestExpandCases(r, n/2, cf, st)
 	mangleCases(r, n/2, cf, st)
 	glueTransform(r, n/2, st, cf)
 	glueBoxFamilies(r, n/2+20, st)
